@@ -199,6 +199,10 @@ def object_marker():
     return 'MARK'
 
 
+E = {'k': 'dict', 'od': False, 'id': 1, 'items': []}
+MIXED = ['Dict', False, [[['Str', 'id'], ['Type', 'int']], [['Lit', 1], ['Type', 'str']], [['Lit', None], ['Type', 'object']]]]
+
+
 def corpus():
     t = {'k': 'dict', 'od': False, 'id': 1, 'items': [['id', 1], ['name', 'alice']]}
     return [
@@ -210,6 +214,15 @@ def corpus():
         {'target': 1, 'spec': ['Match', ['Type', 'str'], ['Lit', 'dflt']]},
         {'target': {'k': 'list', 'id': 1, 'items': [1, 'a', None]}, 'spec': ['Match', ['List', [['Type', 'int'], ['Type', 'str']]], None]},
         {'target': {'k': 'dict', 'od': False, 'id': 1, 'items': []}, 'spec': ['Match', ['Dict', False, [[['Required', ['Type', 'object']], ['Type', 'object']]]], None]},
+        # several required keys of different types missing at once (str next to int, None): still a MatchError, caught by default=,
+        # Or, Not and the per-item alternatives of a list pattern
+        {'target': E, 'spec': ['Match', MIXED, None]},
+        {'target': E, 'spec': ['Match', MIXED, ['Lit', 'dflt']]},
+        {'target': E, 'spec': ['Match', ['Or', [MIXED, ['Dict', False, []]], None], None]},
+        {'target': E, 'spec': ['Match', ['Not', MIXED], None]},
+        {'target': {'k': 'list', 'id': 1, 'items': [{'k': 'dict', 'od': False, 'id': 2, 'items': [['k', 2]]}, {'k': 'dict', 'od': False, 'id': 3, 'items': []}]},
+         'spec': ['Match', ['List', [MIXED, ['Dict', False, [[['Type', 'str'], ['Type', 'int']]]]]], None]},
+        {'target': {'k': 'dict', 'od': False, 'id': 1, 'items': [['id', 1]]}, 'spec': ['Match', MIXED, None]},
     ]
 
 
